@@ -27,10 +27,14 @@ def swap(W, A, v):
 
 def obligations(ctx, tier):
     out = []
-    configs = ["Kd", "Kr"] if tier == "quick" else ["Kd", "Kr", "Kdn", "Krn"]
+    configs = ["Kd", "Kr", "Kdn"] if tier == "quick" else ["Kd", "Kr", "Kdn", "Krn"]
     for cfg in configs:
         K = ctx.k(cfg)
         for A in ADTS:
+            if cfg == "Kdn" and tier == "quick":
+                # quick tier: only the rows that exist with the nightly feature alone (the *_bytes family)
+                out += nightly_rows(K, A)
+                continue
             for m in ("from_le", "to_le"):
                 out += core.g_row(K, PROP, inh(A, m), arith.reps(A, "T", (lambda A=A: lambda W, env: ("val", W.wrap(A, env[0].v)))()))
             for m in ("from_be", "to_be"):
@@ -44,12 +48,18 @@ def obligations(ctx, tier):
                 # padding bytes of any number are accepted: no `None` may be decided from the length of the slice alone
                 out.append(core.t_row(K, PROP, inh(A, m)))
             if cfg in ("Kdn", "Krn"):
-                U = A if not is_signed(A) else TWIN[A]
-                out.append(core.f_row(K, PROP, inh(A, "to_ne_bytes"), call(inh(A, "to_le_bytes"), P(0))))
-                out.append(core.f_row(K, PROP, inh(A, "from_ne_bytes"), call(inh(A, "from_le_bytes"), P(0))))
-                if is_signed(A):
-                    for m in ("to_be_bytes", "to_le_bytes"):
-                        out.append(core.f_row(K, PROP, inh(A, m), call(inh(U, m), field(P(0), "bits"))))
-                    for m in ("from_be_bytes", "from_le_bytes"):
-                        out.append(core.f_row(K, PROP, inh(A, m), from_bits(A, call(inh(U, m), P(0)))))
+                out += nightly_rows(K, A)
+    return out
+
+
+def nightly_rows(K, A):
+    out = []
+    U = A if not is_signed(A) else TWIN[A]
+    out.append(core.f_row(K, PROP, inh(A, "to_ne_bytes"), call(inh(A, "to_le_bytes"), P(0))))
+    out.append(core.f_row(K, PROP, inh(A, "from_ne_bytes"), call(inh(A, "from_le_bytes"), P(0))))
+    if is_signed(A):
+        for m in ("to_be_bytes", "to_le_bytes"):
+            out.append(core.f_row(K, PROP, inh(A, m), call(inh(U, m), field(P(0), "bits"))))
+        for m in ("from_be_bytes", "from_le_bytes"):
+            out.append(core.f_row(K, PROP, inh(A, m), from_bits(A, call(inh(U, m), P(0)))))
     return out
